@@ -211,6 +211,14 @@ func c13RunPass(c *ctx, p c13Pass, dir string, merge func(p c13Pass, st *c13Chil
 			culprit = append([]string{"(the crash did not repeat when the runs in flight were run again one by one: schedule dependent)"}, culprit...)
 		}
 	}
+	if strings.Contains(out+head, "send on closed channel") && strings.Contains(out+head, "flushHandshakeBuffer") {
+		// the reader of a side that reached EOF has closed its channel (deferred close in wrapInput /
+		// wrapOutput) while the handshake worker still flushes the parked chunks into it: a known
+		// finding of its own (the session is ending: the harness closes the streams at the end of a run)
+		c.violate("relay-eof-during-handshake-flush", "the relay panics (send on closed channel) when a side reaches EOF while the handshake worker flushes the parked chunks",
+			head+" | pass "+p.name+" | "+strings.Join(culprit, " | ")+fmt.Sprintf(" | VERIF_VP_SEED=%d", vpSeed))
+		return
+	}
 	c.violate("relay-inner-crash-"+p.name, "the relay died in pass '"+p.name+"' of the relay harness (unrecovered panic: the relay process on the jump host would be gone, with everything parked and every later byte): "+err.Error(),
 		head+" | "+strings.Join(culprit, " | ")+fmt.Sprintf(" | VERIF_VP_SEED=%d", vpSeed))
 }
